@@ -1,3 +1,5 @@
+mod codec;
+mod hlc;
 mod model;
 mod replay_ops;
 
@@ -5,6 +7,10 @@ fn main() {
     let cmd = std::env::args().nth(1).unwrap_or_default();
     match cmd.as_str() {
         "replay-ops" => replay_ops::main(),
+        "replay-hlc" => hlc::replay(),
+        "record-hlc" => hlc::record(),
+        "replay-codec" => codec::replay(),
+        "record-codec" => codec::record(),
         other => {
             eprintln!("unknown command {other:?}");
             std::process::exit(2);
